@@ -166,6 +166,7 @@ type Stats struct {
 	Outcomes       map[string]int `json:"outcomes"` // action kind/result histogram
 	Foreign        map[string]int `json:"foreign_discrepancies,omitempty"`
 	DeadStates     int            `json:"dead_states,omitempty"`
+	ConformanceMismatches int     `json:"conformance_mismatches,omitempty"`
 	MaxFrontier    int            `json:"max_frontier"`
 	Samples        [][]string     `json:"-"`
 	WallS          float64        `json:"wall_s"`
@@ -476,8 +477,14 @@ func (s *Scenario) Explore(opt Options) (Stats, []Violation) {
 		wg.Wait()
 		for _, er := range errs {
 			if er != "" {
-				fmt.Fprintf(os.Stderr, "HARNESS-ERROR conformance replay mismatch: %s\n", er)
-				os.Exit(2)
+				// the explored (re-used, restored) instance and a fresh application disagree on the same
+				// history: either the harness restores badly or the application keeps state outside its
+				// database. Verdicts of this run then rest on fresh replays only (Confirm); without a
+				// confirmed violation the run is reported as unusable (exit 2), never as a pass.
+				st.ConformanceMismatches++
+				if st.ConformanceMismatches <= 3 {
+					fmt.Fprintf(os.Stderr, "CONFORMANCE-MISMATCH: %s\n", firstLine(er))
+				}
 			}
 		}
 		st.Replayed += len(toReplay)
